@@ -1,5 +1,5 @@
 """C11 — the two-phase-commit variable behaves as one copy and does not livelock (DESIGN §4 C11)."""
-import json, os, concurrent.futures
+import json, os, time, concurrent.futures
 import vlib, c11_lib
 
 ID = "C11"
@@ -139,7 +139,7 @@ def run(ctx):
             for t in (["local", "ref", "gob"] if "transport" not in c else [c["transport"]]):
                 cc = dict(c); cc["transport"] = t
                 cases.append(cc)
-        nsched = 120 if tier == "quick" else 2500
+        nsched = 90 if tier == "quick" else 2500
         for i in range(nsched):
             sch = gen_schedule(rng, tier)
             ts = ["local", "gob"] + (["ref"] if i % 10 == 0 else [])
@@ -152,7 +152,9 @@ def run(ctx):
     smokes = [c for c in cases if c.get("kind") == "smoke"]
     if not ctx.replay:
         smokes = smoke_cases(tier, len(cases))
+    t0 = time.time()
     results, crashes = run_harness(stepped + smokes)
+    t_harness = time.time() - t0
     for bad, err, rc in crashes:
         ctx.failures.append({"signature": "harness-crash-%s" % bad.get("transport", bad.get("kind")),
                              "what": "the process died while running a case (panic in a goroutine of twopc.go?): %s" % err[-300:],
@@ -202,6 +204,8 @@ def run(ctx):
         for sig, what in smoke_oracle(c, r):
             ctx.failures.append({"signature": sig, "what": what, "case": c, "obs": f})
     ctx.extra["input_distribution"] = stats
+    ctx.extra["harness_seconds"] = round(t_harness, 1)
+    t1 = time.time()
     ctx.samples = []
     for c in stepped[:200]:
         r = results.get(c["id"])
@@ -237,6 +241,7 @@ def run(ctx):
                                        "impl": steps[step] if step < len(steps) else None,
                                        "model": "model (rules %s) disagrees or is not enabled at this step; previous step: %s" % (
                                            RULES, json.dumps(steps[step - 1]["ev"]) if step > 0 else "init")})
+    ctx.extra["correspondence_seconds"] = round(time.time() - t1, 1)
     if ctx.replay:
         for c in stepped:
             r = results.get(c["id"], {})
